@@ -82,7 +82,7 @@ def draw_side(ctx, ch, L, pool, kspec, side, c, allow=('files', 'list', 'sig')):
 	if channel == 'sig':
 		path, ids = write_sigfile(ctx, pool, idxs, kspec, f'{side}-{c}.gs', int_ids=ch.flip(0.2, f'{L}.{side}intids'))
 		return dict(channel='sig', args=[opt[3], path], labels=ids, genomes=idxs, files=[], sig_kspec=kspec)
-	forms = [ch.pick(['plain', 'gz', 'plain', 'gz', 'alias'], f'{L}.{side}f{i}') for i in range(n)]
+	forms = [ch.pick(['plain', 'gz', 'plain', 'gz', 'alias', 'link'], f'{L}.{side}f{i}') for i in range(n)]
 	paths = [pool.genomes[g][f] or pool.genomes[g]['plain'] for g, f in zip(idxs, forms)]
 	if channel == 'files':
 		args = []
@@ -94,6 +94,8 @@ def draw_side(ctx, ch, L, pool, kspec, side, c, allow=('files', 'list', 'sig')):
 	lf = os.path.join(ctx.scratch, f'{side}list-{c}.txt')
 	with open(lf, 'w') as f:
 		f.write('\n'.join(rels) + '\n')
+	if ch.flip(0.25, f'{L}.{side}no_dir'):
+		return dict(channel='list', args=[opt[1], lf], labels=[label_model(r) for r in rels], genomes=idxs, files=paths, sig_kspec=None, needs_cwd=base)
 	return dict(channel='list', args=[opt[1], lf, opt[2], base], labels=[label_model(r) for r in rels], genomes=idxs, files=paths, sig_kspec=None)
 
 
@@ -152,7 +154,7 @@ def scenario(ctx):
 	with load_signatures(world.gs) as dbs:
 		db_sigs = [np.array(dbs[i]) for i in range(len(dbs))]
 		db_ids = [str(x) for x in dbs.ids]
-	all_paths = [g['plain'] for g in pool.genomes] + [g['gz'] for g in pool.genomes] + [g['alias'] for g in pool.genomes if g['alias']]
+	all_paths = [g['plain'] for g in pool.genomes] + [g['gz'] for g in pool.genomes] + [g['alias'] for g in pool.genomes if g['alias']] + [g['link'] for g in pool.genomes]
 	omp.set_threads(ch.int(1, 16, 'initial_threads'))
 	n_cmd = ch.int(6, 12, 'n_cmd')
 	for c in range(n_cmd):
@@ -161,11 +163,20 @@ def scenario(ctx):
 		kgiven = ch.flip(0.4, L + '.kgiven')
 		cores = ch.pick([None, 1, 2, 3, 4, 8, 16], L + '.cores')
 		progress = ch.flip(0.5, L + '.progress')
-		knobs = Knobs(ch, L, with_chunk=False)
+		knobs = Knobs(ch, L, with_chunk=False, faults=True)
+		if ch.flip(0.1, L + '.failing_before'):
+			# context: an earlier command of the same process that failed in mid-parse
+			fk = Knobs(ch, L + '.fail', with_chunk=False)
+			fres, _ = run_cli(ctx, ['dist', '-o', os.path.join(ctx.scratch, f'fail-{c}.csv'), '-k', str(kspec.k), '-p', kspec.prefix_str, '--no-progress',
+			                        '-q', pool.broken, '-r', pool.genomes[0]['plain']], fk)
+			ctx.fault('failing_command_before', status=fres.status)
+			ctx.log('failing_cmd', status=fres.status)
 		q = draw_side(ctx, ch, L, pool, kspec, 'q', c)
 		r = None
 		if rmode == 'side':
 			r = draw_side(ctx, ch, L, pool, kspec, 'r', c)
+			if q.get('needs_cwd') and r.get('needs_cwd') and q['needs_cwd'] != r['needs_cwd']:
+				r = dict(r, args=r['args'] + ['--rdir', r['needs_cwd']], needs_cwd=None)   # one working directory per command
 		# effective k-mer parameters by the documented rule
 		sig_src = q['sig_kspec'] or (r and r['sig_kspec']) or (kspec if rmode == 'usedb' else None)
 		if kgiven:
@@ -185,7 +196,9 @@ def scenario(ctx):
 			args += ['--square']
 		args += ['--progress' if progress else '--no-progress'] + ([] if cores is None else ['-c', str(cores)])
 		cwd = pool.decoy_cwd if ch.flip(0.5, L + '.decoy_cwd') else None
-		res, h = run_cli(ctx, args, knobs, short_paths=all_paths, short_seed=ch.subseed(L + '.short'), cwd=cwd, ch=ch, label=L)
+		cwd = q.get('needs_cwd') or (r and r.get('needs_cwd')) or cwd
+		res, h = run_cli(ctx, args, knobs, short_paths=all_paths, short_seed=ch.subseed(L + '.short'), cwd=cwd, ch=ch, label=L,
+		                 fault_paths=(q['files'] + (r['files'] if r else [])) or None)
 		ctx.stats['executions'] += 1
 		order = list(h.sim.completion_order)
 		text = open(out).read() if os.path.exists(out) else ''
@@ -199,6 +212,11 @@ def scenario(ctx):
 			ctx.probe('completion_out_of_submission_order')
 		if h.omp_stats and h.omp_stats['max_executing'] >= 2:
 			ctx.probe('ge2_threads_executed_iterations')
+		if h.fault_fired and res.status != 0:
+			ctx.probe('command_failed_under_fault')
+			continue
+		if h.fault_fired:
+			ctx.probe('command_succeeded_under_fault')
 		if res.status != 0:
 			ctx.violation('C16.status', f'{desc}: exit status {res.status} ({type(res.exc).__name__ if res.exc else "-"})', detail=f'{res.exc!r} {res.stderr[-400:]}')
 		qsigs = [cache.get(g, eff) for g in q['genomes']]
@@ -230,7 +248,7 @@ def scenario(ctx):
 					for p in q['files']:
 						rargs += ['-r', p]
 				else:
-					rargs = ['--rl', q['args'][1], '--rdir', q['args'][3]]
+					rargs = ['--rl', q['args'][1]] + (['--rdir', q['args'][3]] if len(q['args']) > 3 else [])
 				knobs2 = Knobs(ch, L + '.twin', with_chunk=False)
 				args2 = ['dist', '-o', out2] + kargs + q['args'] + rargs + ['--no-progress'] + ([] if cores is None else ['-c', str(cores)])
 				res2, h2 = run_cli(ctx, args2, knobs2, short_paths=all_paths, short_seed=ch.subseed(L + '.short2'), cwd=cwd, ch=ch, label=L + '.twin')
